@@ -24,6 +24,15 @@ const c15Wait = 60 * time.Second
 type c15Channel struct {
 	mu       sync.Mutex
 	handlers []c15Handler
+
+	// delayRecv: the registration of a receiver takes a while (the harness
+	// decides how long); recvCalled is closed when Recv was entered
+	delayRecv  bool
+	recvCalled chan struct{}
+	recvGate   chan struct{}
+
+	attempted atomic.Int64 // deliveries handed to (or attempted on) handlers
+	ownLost   atomic.Bool  // a message sent by a state found no receiver
 }
 
 type c15Handler struct {
@@ -31,11 +40,30 @@ type c15Handler struct {
 	fn  func(net.Message)
 }
 
+// c15Own is what the initial toy state broadcasts from its Initiate.
+type c15Own struct{ id int }
+
+func (o *c15Own) Type() string             { return "c15/own" }
+func (o *c15Own) Marshal() ([]byte, error) { return []byte{byte(o.id)}, nil }
+
 func (c *c15Channel) Name() string { return "c15" }
+
+// Send loops the member's own message back to its receivers, like the
+// production channels do. As in production, a message published while no
+// receiver is registered is not delivered later.
 func (c *c15Channel) Send(ctx context.Context, m net.TaggedMarshaler, s ...net.RetransmissionStrategy) error {
+	own := m.(*c15Own)
+	if c.deliver(&c15Msg{typ: own.Type(), id: own.id}) == 0 {
+		c.ownLost.Store(true)
+	}
 	return nil
 }
+
 func (c *c15Channel) Recv(ctx context.Context, handler func(m net.Message)) {
+	if c.delayRecv {
+		close(c.recvCalled)
+		<-c.recvGate
+	}
 	c.mu.Lock()
 	c.handlers = append(c.handlers, c15Handler{ctx, handler})
 	c.mu.Unlock()
@@ -54,6 +82,7 @@ func (c *c15Channel) deliver(m net.Message) int {
 	}
 	c.mu.Unlock()
 	for _, h := range live {
+		c.attempted.Add(1)
 		h.fn(m)
 	}
 	return len(live)
@@ -99,6 +128,12 @@ type c15Plan struct {
 	ending   string
 	endState int
 	queued   int
+	// slowRecv: installing the receiver takes a while
+	slowRecv bool
+	// burstState >= 0: while that state is current a Receive is parked and
+	// burst (> asyncReceiveBuffer) messages arrive meanwhile
+	burstState int
+	burst      int
 }
 
 func (p *c15Plan) String() string {
@@ -106,6 +141,12 @@ func (p *c15Plan) String() string {
 	fmt.Fprintf(&b, "states=%d need=%v slow=%v end=%s@%d", p.states, p.need, c15Bits(p.slow), p.ending, p.endState)
 	if p.ending == "cancel-under-traffic" {
 		fmt.Fprintf(&b, "(+%d queued)", p.queued)
+	}
+	if p.slowRecv {
+		b.WriteString(" slow-recv")
+	}
+	if p.burstState >= 0 {
+		fmt.Fprintf(&b, " burst=%d@%d", p.burst, p.burstState)
 	}
 	for ph, ds := range p.phases {
 		if len(ds) == 0 {
@@ -193,6 +234,12 @@ func c15GenPlan(t *rapid.T, label string) *c15Plan {
 	p.ending = rapid.SampledFrom([]string{"final", "final", "final", "final", "init-error", "next-error", "cancel-during-init", "cancel-before-allow",
 		"cancel-under-traffic", "cancel-under-traffic", "cancel-under-traffic"}).Draw(t, label+"ending")
 	p.queued = rapid.IntRange(0, 2).Draw(t, label+"queuedBehindBusyReceive")
+	p.slowRecv = rapid.IntRange(0, 2).Draw(t, label+"slowReceiverRegistration") == 0
+	p.burstState = -1
+	if p.ending != "cancel-under-traffic" && rapid.IntRange(0, 3).Draw(t, label+"burst") == 0 {
+		p.burstState = rapid.IntRange(0, p.endState).Draw(t, label+"burstState")
+		p.burst = asyncReceiveBuffer + rapid.IntRange(1, 40).Draw(t, label+"burstBeyondBuffer")
+	}
 	p.endState = p.states - 1
 	if p.ending != "final" {
 		p.endState = rapid.IntRange(0, p.states-1).Draw(t, label+"endState")
@@ -224,6 +271,12 @@ type c15Chain struct {
 	allow       []atomic.Bool
 	acks        chan struct{}
 	states      []*c15State
+
+	ch *c15Channel
+	// sentinel: closed when the message with sentinelID was received
+	sentinelID   int
+	sentinelSeen chan struct{}
+	received     atomic.Int64
 
 	// a message with this id parks the machine inside Receive until released
 	blockID     int
@@ -258,6 +311,10 @@ func (s *c15State) MemberIndex() group.MemberIndex { return 1 }
 func (s *c15State) Initiate(ctx context.Context) error {
 	c := s.c
 	c.event(c15Event{kind: "init-start", state: s.idx})
+	if s.idx == 0 {
+		// the first thing a member does: broadcast (looped back to itself)
+		_ = c.ch.Send(ctx, &c15Own{id: c15OwnID})
+	}
 	close(c.initStarted[s.idx])
 	select {
 	case <-c.gate[s.idx]:
@@ -299,6 +356,10 @@ func (s *c15State) Receive(msg net.Message) error {
 	id := msg.Payload().(*c15Payload).id
 	c.event(c15Event{kind: "recv", state: s.idx, id: id})
 	c.base.ReceiveToHistory(msg)
+	c.received.Add(1)
+	if id == c.sentinelID {
+		close(c.sentinelSeen)
+	}
 	if id == c.blockID {
 		close(c.recvEntered)
 		<-c.recvRelease
@@ -340,18 +401,22 @@ func c15Run(plan *c15Plan) (*c15Chain, *c15Outcome) {
 	n := plan.states
 	c := &c15Chain{plan: plan, base: NewBaseAsyncState(), visibleAtInit: map[int][]int{}, visibleAtTrue: map[int][]int{},
 		initStarted: make([]chan struct{}, n), initEnded: make([]chan struct{}, n), gate: make([]chan struct{}, n),
-		allow: make([]atomic.Bool, n), acks: make(chan struct{}, 1024), blockID: -1,
-		recvEntered: make(chan struct{}), recvRelease: make(chan struct{})}
+		allow: make([]atomic.Bool, n), acks: make(chan struct{}, 4096), blockID: -1, sentinelID: -1,
+		sentinelSeen: make(chan struct{}), recvEntered: make(chan struct{}), recvRelease: make(chan struct{})}
 	for i := 0; i < n; i++ {
 		c.initStarted[i], c.initEnded[i], c.gate[i] = make(chan struct{}), make(chan struct{}), make(chan struct{})
 	}
 	if plan.ending == "cancel-under-traffic" {
 		c.blockID = 1000 + plan.endState
+	} else if plan.burstState >= 0 {
+		c.blockID = 3000 + plan.burstState
+		c.sentinelID = 4000 + plan.burstState
 	}
 	out := &c15Outcome{}
 	ctx, cancel := context.WithCancel(context.Background())
 	defer cancel()
-	ch := &c15Channel{}
+	ch := &c15Channel{delayRecv: plan.slowRecv, recvCalled: make(chan struct{}), recvGate: make(chan struct{})}
+	c.ch = ch
 	first := &c15State{c: c, idx: 0}
 	c.states = []*c15State{first}
 	type result struct {
@@ -422,9 +487,34 @@ func c15Run(plan *c15Plan) (*c15Chain, *c15Outcome) {
 			out.inconclusive = "timeout waiting for Execute to return"
 		}
 	}
+	if plan.slowRecv {
+		// the receiver registration is in progress for a while; the unchanged
+		// machine does nothing else meanwhile (a schedule, not a verdict)
+		if waitFor("the machine to register its receiver", ch.recvCalled) {
+			select {
+			case <-c.initStarted[0]:
+			case <-time.After(transitionCheckInterval / 5):
+			}
+			close(ch.recvGate)
+		}
+	}
 	for p := 0; p < n && !finished && out.inconclusive == "" && out.violation == ""; p++ {
 		if !waitFor(fmt.Sprintf("Initiate of state %d", p), c.initStarted[p]) {
 			break
+		}
+		if p == 0 {
+			// the initial state broadcast its own message when its initiation
+			// started: sent after Execute was called, so it must be received
+			if ch.ownLost.Load() {
+				out.violation = "the message the initial state sent from its Initiate found no registered receiver: the machine was not yet listening (lost)"
+				break
+			}
+			out.delivered = append(out.delivered, c15Delivery{forState: n + 7, id: c15OwnID})
+			out.phaseOf = append(out.phaseOf, 0)
+			out.beforeInit = append(out.beforeInit, true)
+			if !waitFor("Receive of the initial state's own message", c.acks) {
+				break
+			}
 		}
 		ok := true
 		for _, d := range plan.phases[p] {
@@ -455,6 +545,70 @@ func c15Run(plan *c15Plan) (*c15Chain, *c15Outcome) {
 		if plan.ending == "init-error" && plan.endState == p {
 			awaitEnd(p)
 			break
+		}
+		if plan.burstState == p {
+			// a lagging member: one Receive takes long, meanwhile more
+			// messages than the machine's buffer holds arrive. The network
+			// delivers from its own routine (the production handler blocks
+			// when the buffer is full).
+			note := func(d c15Delivery) {
+				out.delivered = append(out.delivered, d)
+				out.phaseOf = append(out.phaseOf, p)
+				out.beforeInit = append(out.beforeInit, false)
+			}
+			r0 := c.received.Load()
+			seq++
+			note(c15Delivery{forState: n + 5, id: c.blockID, afterInit: true})
+			ch.deliver(&c15Msg{typ: c15Type(n + 5), id: c.blockID, seq: seq})
+			if !waitFor("the machine to enter Receive", c.recvEntered) {
+				break
+			}
+			base := ch.attempted.Load()
+			burstDone := make(chan struct{})
+			first := seq + 1
+			for k := 0; k < plan.burst; k++ {
+				seq++
+				note(c15Delivery{forState: n + 6, id: 10000 + k, afterInit: true})
+			}
+			go func() {
+				for k := 0; k < plan.burst; k++ {
+					ch.deliver(&c15Msg{typ: c15Type(n + 6), id: 10000 + k, seq: first + uint64(k)})
+				}
+				close(burstDone)
+			}()
+			// more than a buffer-full has been handed over (the last one is
+			// blocked in the handler or - if messages get dropped - gone)
+			if !verifkit.Eventually(c15Wait, func() bool { return ch.attempted.Load()-base > int64(asyncReceiveBuffer) }) {
+				out.inconclusive = "burst delivery did not reach the buffer size"
+				break
+			}
+			time.Sleep(transitionCheckInterval / 20)
+			before := c.received.Load()
+			close(c.recvRelease)
+			released = true
+			if !waitFor("the burst to be handed over", burstDone) {
+				break
+			}
+			if !verifkit.Eventually(c15Wait, func() bool { return c.received.Load() > before }) {
+				out.inconclusive = "machine did not go on receiving after the long Receive"
+				break
+			}
+			// channels are FIFO: once this one is through, everything
+			// admitted before it has been handed to Receive
+			seq++
+			note(c15Delivery{forState: n + 6, id: c.sentinelID, afterInit: true})
+			ch.deliver(&c15Msg{typ: c15Type(n + 6), id: c.sentinelID, seq: seq})
+			if !waitFor("the message after the burst", c.sentinelSeen) {
+				break
+			}
+			// take the acknowledgements of what was received out of the way
+			drained := true
+			for k := c.received.Load() - r0; k > 0 && drained; k-- {
+				drained = waitFor("acknowledgements of the burst", c.acks)
+			}
+			if !drained {
+				break
+			}
 		}
 		for _, d := range plan.phases[p] {
 			if d.afterInit {
@@ -589,7 +743,12 @@ func c15Verify(c *c15Chain, out *c15Outcome) string {
 	}
 	must := len(wantIDs) - out.optionalTail
 	if len(recvIDs) < must || len(recvIDs) > len(wantIDs) || fmt.Sprint(recvIDs) != fmt.Sprint(wantIDs[:len(recvIDs)]) {
-		return fmt.Sprintf("messages received %v, delivered %v (each exactly once, in delivery order; the last %d raced with the cancellation and may be missing)", recvIDs, wantIDs, out.optionalTail)
+		at := 0
+		for at < len(recvIDs) && at < len(wantIDs) && recvIDs[at] == wantIDs[at] {
+			at++
+		}
+		return fmt.Sprintf("%d messages delivered, %d received (each must be received exactly once, in delivery order; the last %d raced with a cancellation and may be missing); first difference at position %d: delivered %v.. received %v..",
+			len(wantIDs), len(recvIDs), out.optionalTail, at, c15Head(wantIDs[at:]), c15Head(recvIDs[at:]))
 	}
 	for i := range recvIDs {
 		if recvStates[i] != out.phaseOf[i] {
@@ -663,6 +822,15 @@ func c15Verify(c *c15Chain, out *c15Outcome) string {
 		}
 	}
 	return ""
+}
+
+const c15OwnID = 9000
+
+func c15Head(l []int) []int {
+	if len(l) > 6 {
+		return l[:6]
+	}
+	return l
 }
 
 const c15Batch = 8
